@@ -11,6 +11,10 @@ def klass(name):
         return name
     if name == "huge":
         return "int"
+    if name in ("nan", "inf"):
+        return "float"
+    if name in ("S1", "S2", "S12", "Sf", "Sg"):
+        return "set"
     if name.startswith("D_"):
         return "dict"
     for pre, k in (("i", "int"), ("b", "bool"), ("f", "float"), ("L", "list"), ("T", "tuple")):
